@@ -995,6 +995,13 @@ pub fn payloads(g: &mut G, tag: &str) -> Vec<(&'static str, Vec<u8>)> {
         // an escape sequence BETWEEN a CR and a LF: what the command wrote has no CR LF pair -
         // the order of the two documented transformations matters
         ("sgr-between-cr-lf", format!("{}-a\r\x1b[0m\n{}-b\r\x1b[1;31m\x1b[m\n\x1b[32m{}-c\x1b[0m\r\n", tag, tag, tag).into_bytes()),
+        // an escape sequence that is never finished, at the very end of the output: what follows
+        // it in the pipe is not this test case's (single-script mode only - there the bytes that
+        // follow are scrut's own divider, and stripped and untouched are both accepted; in
+        // per-process mode whether later bytes complete the sequence is beyond the oracle's model
+        // of stripping)
+        ("sgr-unfinished-at-end", format!("{}-a\n{}\x1b[1", tag, tag).into_bytes()),
+        ("osc-unfinished-at-end", format!("{}-a\n\x1b]0;{}", tag, tag).into_bytes()),
         ("divider-like", format!("~~~~~~~~EXECDIVIDER::x::0::0\n{}\n", tag).into_bytes()),
         ("divider-prefix-only", format!("{} ~~~~~~~~EXECDIVIDER::\n", tag).into_bytes()),
         ("divider-like-unterminated", format!("{}\n~~~~~~~~EXECDIVIDER::x::1::7", tag).into_bytes()),
@@ -1019,6 +1026,9 @@ pub fn lane_bytes(seed: u64) -> Vec<Scenario> {
     for script in [false, true] {
         let kinds: Vec<&'static str> = payloads(&mut G::new(1), "x").iter().map(|p| p.0).collect();
         for kind in kinds {
+            if !script && kind.ends_with("unfinished-at-end") {
+                continue;
+            }
             for variant in 0..6u32 {
                 // variant: where the payload goes and which settings are on
                 let mut sim = base_sim(g.rng.next_u64());
